@@ -68,9 +68,9 @@ def complexity_consistent(c):
     return cx in ("Plain", "NonGroup")
 
 
-def collect(srcs, targets=("sql.sqlite",)):
-    """run the compiles with the preprocess hook on; returns (events, n_compiles) -- events: list of (src, target, pass-json)"""
-    reqs = [{"src": s, "target": t, "want": [], "msg_prefix": PRE.strip()} for s in srcs for t in targets]
+def collect(pairs):
+    """run the compiles [(src, target)] with the preprocess hook on; returns (events, n_compiles, n_ok) -- events: list of (src, target, pass-json, ok)"""
+    reqs = [{"src": s, "target": t, "want": [], "msg_prefix": PRE.strip()} for s, t in pairs]
     ans = harness("log", reqs)
     out = []
     for rq, a in zip(reqs, ans):
@@ -81,9 +81,11 @@ def collect(srcs, targets=("sql.sqlite",)):
     return out, len(reqs), sum(1 for a in ans if "ok" in a)
 
 
-def run_reorder(ck, srcs, targets=("sql.sqlite", "sql.generic")):
-    srcs = list(dict.fromkeys(srcs))
-    events, n_comp, n_ok = collect(srcs, targets)
+def run_reorder(ck, srcs, one_target_srcs=(), targets=("sql.sqlite", "sql.generic")):
+    """srcs are compiled for every target, one_target_srcs (the exhaustive correspondence programs, whose pipelines
+    differ in frame arguments only) for the first"""
+    pairs = [(s, t) for s in dict.fromkeys(srcs) for t in targets] + [(s, targets[0]) for s in dict.fromkeys(one_target_srcs)]
+    events, n_comp, n_ok = collect(pairs)
     calls = [(s, t, e) for s, t, e, _ in events if e.get("pass") == "reorder"]
     ck.coverage["reorder_hook"] = {"compiles": n_comp, "compiled_ok": n_ok, "reorder_calls": len(calls)}
     if n_ok and not calls:
